@@ -16,4 +16,13 @@ PLAN = {
     ),
 }
 
+UT = "cooler.util"
+PLAN["C04"] = dict(
+    targets=[f"{RQ}:_region_to_extent", f"{UT}:parse_region"],
+    bounded=None,
+    level="proof",
+    level_text="Proof of the extent arithmetic for all bin tables, chromosomes and ranges (fixed path relative to the C20 'fixed' predicate, variable path over the searchsorted contract) and of parse_region's defaults/bounds/refusals; bounded tier for the API wrappers.",
+    level_note="Trusted: numpy searchsorted contract, FDIV64 (float floor/ceil of integer quotients), h5py dataset reads as array reads; parse_region_string assumed here (C19 bounded).",
+)
+
 NOT_APPLICABLE = {}
